@@ -66,6 +66,8 @@ class Scen:
             o.append("unw " + " ".join(map(str, self.unw)))
         if self.sched:
             o.append(f"mode sched {self.sched[0]} " + " ".join(map(str, self.sched[1])))
+            if len(self.sched) > 2 and self.sched[2]:
+                o.append("pct " + " ".join(map(str, self.sched[2][0])) + " c " + " ".join(map(str, self.sched[2][1])))
             for t, ops in self.progs:
                 for op in ops:
                     o.append(f"p {t} " + op_text(op))
